@@ -16,8 +16,11 @@ fn main() {
     mods.sort();
     let out = std::path::Path::new(&std::env::var("OUT_DIR").unwrap()).join("registry.rs");
     let mut f = std::fs::File::create(out).unwrap();
+    // the directory of THIS build (not the one the build script was first compiled in: a copied
+    // target directory would otherwise keep compiling the sources of the original checkout)
+    let here = std::env::var("CARGO_MANIFEST_DIR").unwrap();
     for m in &mods {
-        writeln!(f, "#[path = \"{}/src/{}.rs\"] mod {};", env!("CARGO_MANIFEST_DIR"), m, m).unwrap();
+        writeln!(f, "#[path = \"{}/src/{}.rs\"] mod {};", here, m, m).unwrap();
     }
     writeln!(f, "pub fn all_streams() -> Vec<(&'static str, StreamFn)> {{ let mut v = Vec::new();").unwrap();
     for m in &mods {
